@@ -153,7 +153,15 @@ class ManualExecutor(Executor):
             raise RuntimeError("cannot schedule new futures after shutdown")
         n = len(self.jobs)
         fut = RecFuture(w, "%s.j%d" % (self.name, n))
-        self.jobs.append([fn, args, kwargs, fut, "queued"])
+        job = [fn, args, kwargs, fut, "queued"]
+        self.jobs.append(job)
+
+        def _drop_if_cancelled(f, job=job):
+            if f.cancelled():
+                job[0] = job[1] = job[2] = job[3] = None
+                job[4] = "cancelled"
+
+        fut.add_done_callback(_drop_if_cancelled)
         w.futs[fut.name] = fut
         w.rec("base_submit", ex=self.name, job=n, fn=getattr(fn, "name", None), fut=fut.name)
         return fut
@@ -165,6 +173,9 @@ class ManualExecutor(Executor):
             return "missing"
         job = self.jobs[n]
         fn, args, kwargs, fut, state = job
+        if state == "cancelled":
+            w.rec("job_skipped", ex=self.name, job=n)
+            return "skipped"
         if state != "queued":
             return "already"
         if not fut.set_running_or_notify_cancel():
@@ -177,13 +188,14 @@ class ManualExecutor(Executor):
             r = fn(*args, **kwargs)
         except Exception as e:
             job[4] = "done"
-            job[0] = job[1] = job[2] = None
+            job[0] = job[1] = job[2] = job[3] = None
             fut.set_exception(e)
             w.rec("job_end", ex=self.name, job=n)
             return "raised"
         job[4] = "done"
-        job[0] = job[1] = job[2] = None
+        job[0] = job[1] = job[2] = job[3] = None
         fut.set_result(r)
+        r = None
         w.rec("job_end", ex=self.name, job=n)
         return "returned"
 
@@ -273,6 +285,11 @@ class Fn(object):
             return (b[1], args[0])
         if kind == "echo":
             return (tuple(args), tuple(sorted(kwargs.items())))
+        if kind == "retobj":
+            # a fresh weakref-able result object; only the future (and whoever reads it) holds it
+            o = WeakObj(self.name + ".result")
+            w.weak[self.name[:-3] + ".result"] = weakref.ref(o)
+            return o
         if kind == "raise":
             e = EXC[b[1]]()
             e.tag = ("c", self.name, k)
@@ -482,6 +499,8 @@ class World(object):
         self.refs = {}
         self.op_counter = 0
         self.errors = []  # harness-level surprises
+        self.weak = {}
+        self.objs = {}
 
     # -- recording
     def rec(self, kind, **data):
@@ -747,6 +766,12 @@ class World(object):
             ex = self.executor(op[1])
             args = _thaw(spec.get("args", []))
             kwargs = dict(spec.get("kwargs", {}))
+            if spec.get("objarg"):
+                # a weakref-able argument object owned by the harness until "forget"
+                o = WeakObj(op[2] + ".arg")
+                self.objs[op[2] + ".arg"] = o
+                self.weak[op[2] + ".arg"] = weakref.ref(o)
+                args = (o,) + tuple(args)
             if "retry_policy" in spec:
                 f = ex.submit_retry(self.policy(op[2] + ".policy", spec["retry_policy"]), fn, *args, **kwargs)
             elif "timeout" in spec:
@@ -926,6 +951,60 @@ class World(object):
             f = self.executor(op[1]).submit(fn, *_thaw(op[4]), **dict(op[5] if len(op) > 5 else {}))
             self.futs[op[2]] = f
             return "submitted"
+        if k == "grab_base":
+            self.bases = getattr(self, "bases", {})
+            self.bases[op[2]] = self.exs[op[1]][0]
+            return None
+        if k == "runbase":
+            base = self.bases[op[1]]
+            n = 0
+            i = 0
+            while i < len(base.jobs):
+                if base.jobs[i][4] == "queued":
+                    base.run_job(i)
+                    n += 1
+                i += 1
+            return n
+        if k == "drop_base":
+            self.bases.pop(op[1], None)
+            return None
+        if k == "weak":
+            # ["weak", label, kind, name]: remember a weak reference to a harness-known object
+            obj = {"fut": self.futs, "fn": self.fns, "obj": self.objs}[op[2]][op[3]] if op[2] != "ex" else self.executor(op[3])
+            self.weak[op[1]] = weakref.ref(obj)
+            return None
+        if k == "forget":
+            # drop every strong reference the harness holds for a submission: future, callable, argument objects
+            f = op[1]
+            fut = self.futs.pop(f, None)
+            was_done = fut.done() if fut is not None else None
+            fut = None
+            self.fns.pop(f + ".fn", None)
+            for n in list(self.objs):
+                if n.startswith(f + "."):
+                    self.objs.pop(n)
+            for n in list(self.futs):
+                if self.futs.get(n) is None:
+                    self.futs.pop(n)
+            self.raised.clear()
+            return was_done
+        if k == "forget_base":
+            # drop the harness' references to the manual base jobs' futures
+            for n in list(self.futs):
+                if ".base.j" in n:
+                    self.futs.pop(n)
+            return None
+        if k == "alive":
+            return dict((lab, r() is not None) for lab, r in sorted(self.weak.items()) if not op[1:] or lab in op[1:])
+        if k == "exit_hook":
+            # what the interpreter does at exit: the handler the library registered with atexit
+            import more_executors._impl.event as ev
+            ev.GLOBAL_HANDLER.on_exiting()
+            return None
+        if k == "exit_hook_reset":
+            import more_executors._impl.event as ev
+            ev.GLOBAL_HANDLER.shutdown = False
+            return None
         if k == "metrics":
             return sys.modules["prometheus_client"].dump()
         if k == "threads":
@@ -960,6 +1039,14 @@ class World(object):
         self.rec("settled")
         self.run_ops(prog.get("final", []))
         self.rec("program_end")
+
+
+class WeakObj(object):
+    def __init__(self, name):
+        self.name = name
+
+    def __repr__(self):
+        return "<WeakObj %s>" % self.name
 
 
 class CallableObj(object):
@@ -1010,7 +1097,7 @@ def reset_library_globals():
         pc.reset()
     ev.GLOBAL_HANDLER.shutdown = False
     ev.GLOBAL_HANDLER.atexit_registered = True  # same code path in every case, first or not
-    ev.GLOBAL_HANDLER.events = [r for r in ev.GLOBAL_HANDLER.events if r() is not None]
+    ev.GLOBAL_HANDLER.events = []  # events of earlier (aborted) cases must not be visited by this case's exit hook
 
 
 def execute(prog, tape=(), block_tape=(), clock_mode="exact", max_steps=400000, max_vtime=1e4,
